@@ -14,6 +14,11 @@
  *     r<k>:errno=<n>    read k fails with errno n
  *     r<k>:short=<n>    read k returns at most n bytes
  *
+ * Scheduling: with $FAULTFS_GATE="<request fd>,<grant fd>" every mutating call first announces
+ * itself ("<ordinal> <op> <what>\n" on the request fd) and then blocks until the harness grants it
+ * one byte on the grant fd. With several processes gated this way the harness, not the kernel,
+ * decides in which order their file-system calls happen; one schedule is one interleaving.
+ *
  * Faults are addressed by ordinal of call, not by "the j-th word", so a plan stays meaningful
  * when the program under test is restructured (buffered writes, temporary file + rename).
  * Each counted call and each injected fault is appended to $FAULTFS_LOG (if set).
@@ -44,6 +49,8 @@ static const char *dir = NULL;
 static size_t dir_len = 0;
 static int log_fd = -1;
 static int kill_after_call = 0;
+static int gate_req = -1;
+static int gate_ack = -1;
 
 struct rule {
     int is_read;
@@ -85,6 +92,14 @@ static void init(void) {
     const char *log = getenv("FAULTFS_LOG");
     if (log && real_open) {
         log_fd = real_open(log, O_WRONLY | O_CREAT | O_APPEND | O_CLOEXEC, 0644);
+    }
+    const char *gate = getenv("FAULTFS_GATE");
+    if (gate) {
+        int a = -1, b = -1;
+        if (sscanf(gate, "%d,%d", &a, &b) == 2) {
+            gate_req = a;
+            gate_ack = b;
+        }
     }
     const char *plan = getenv("FAULTFS_PLAN");
     if (plan) {
@@ -142,6 +157,15 @@ static int mutating(const char *op, const char *what, long *short_n) {
     mut_ordinal++;
     if (short_n) *short_n = -1;
     logf_("m %ld %s %s\n", mut_ordinal, op, what ? what : "");
+    if (gate_req >= 0 && real_write && real_read) {
+        /* Park here until the scheduler lets this call happen */
+        char line[256];
+        int n = snprintf(line, sizeof line, "%ld %s %s\n", mut_ordinal, op, what ? what : "");
+        if (n > 0) real_write(gate_req, line, (size_t)(n < (int)sizeof line ? n : (int)sizeof line - 1));
+        char grant = 0;
+        while (real_read(gate_ack, &grant, 1) < 0 && errno == EINTR) {
+        }
+    }
     if (sticky_errno) {
         logf_("F %ld sticky errno=%ld\n", mut_ordinal, sticky_errno);
         return (int)sticky_errno;
